@@ -1,0 +1,56 @@
+//go:build verif
+
+package disk
+
+// Machine-checked contracts for /verif (gowp). Comment-only file: it adds no code.
+
+// --- C02: the host-side helpers behind the disk filespace ---
+// queries: a failing stat means "no such node", never a panic
+//@ func IsExist [C02]
+//@   modifies $none
+//@ func IsDir [C02]
+//@   modifies $none
+//@ func IsFile [C02]
+//@   modifies $none
+//@ func MkdirAll [C02]
+//@   at_call os.MkdirAll requires $0 == dest && $1 == filemode
+//@   trace os.MkdirAll as MK bind mkerr
+//@   ensures result == mkerr
+
+// Copy dispatches on the kind of the source
+//@ func Copy [C02]
+//@   at_call CopyDirectory,CopyFile requires $0 == src && $1 == dest
+
+// CopyDirectory walks the source tree; the callback contract is below
+//@ func CopyDirectory [C02]
+//@   at_call path/filepath.Walk requires $0 == src
+//@   trace path/filepath.Walk as WALK bind werr
+//@   ensures result == werr
+
+// the walk callback: an error of the walk is returned before the (possibly nil) info is
+// touched; a visited directory is created, and a visited file is copied from exactly the
+// visited path, at the destination root followed by the path relative to the source root:
+// nothing is written outside dest
+// (A-WALK: filepath.Walk passes a non-nil info whenever it passes a nil error)
+//@ func CopyDirectory$1 [C02]
+//@   requires err == nil ==> info != nil
+//@   trace MkdirAll as MKDIR
+//@   trace CopyFile as COPY
+//@   trace_ensures err != nil : ^$
+//@   ensures err != nil ==> result == err
+//@   at_call MkdirAll requires hasprefix(path, src) ==> $0 == cat(dest, sub(path, len(src), len(path)))
+//@   at_call CopyFile requires $0 == path && (hasprefix(path, src) ==> $1 == cat(dest, sub(path, len(src), len(path))))
+
+// CopyFile: open the source, create (truncate) the destination, copy, and report every
+// failure including the one of the final Close
+//@ func CopyFile [C02 C04]
+//@   at_call os.Open requires $0 == src
+//@   at_call os.Create requires $0 == dst
+//@   trace os.Open as OPEN bind operr
+//@   trace os.Create as CREATE bind crerr
+//@   trace io.Copy as IOCOPY bind cperr
+//@   trace (*File).Close as CLOSE
+//@   trace_ensures operr.1 != nil : ^OPEN $
+//@   ensures operr.1 != nil ==> result == operr.1
+//@   ensures operr.1 == nil && crerr.1 != nil ==> result == crerr.1
+//@   ensures operr.1 == nil && crerr.1 == nil && cperr.1 != nil ==> result == cperr.1
